@@ -25,13 +25,20 @@ def colMean (W : Sample) (c : Nat) : Rat :=
 
 /-- sample covariance (`ddof = 1`) of columns `a` and `b` -/
 def cov (W : Sample) (a b : Nat) : Rat :=
-  ((List.range W.length).map (fun r => (entry W r a - colMean W a) * (entry W r b - colMean W b))).sum
+  let ma := colMean W a
+  let mb := colMean W b
+  ((List.range W.length).map (fun r => (entry W r a - ma) * (entry W r b - mb))).sum
     / ((W.length : Rat) - 1)
+
+/-- the covariance entries of the listed columns, computed once (rows = first index) -/
+def covTable (W : Sample) (cols : List Nat) : List (List Rat) :=
+  cols.map (fun a => cols.map (fun b => cov W a b))
 
 /-- determinant of the correlation matrix of the listed columns, with no square roots:
 `det(cov[cols, cols]) / Π cov[c, c]` -/
 def corrDet (W : Sample) (cols : List Nat) : Rat :=
-  detF cols.length (fun a b => cov W (cols.getD a.val 0) (cols.getD b.val 0))
+  let C := (covTable W cols).map (·.toArray) |>.toArray
+  detF cols.length (fun a b => (C.getD a.val #[]).getD b.val 0)
     / (cols.map (fun c => cov W c c)).prod
 
 /-- columns `[lo, lo+len)` -/
